@@ -171,10 +171,10 @@ fn verif_pn_map_insert_step() {
         insert_case((1 << 62) - 64, off);
         off += 1;
     }
-    // insert into an empty map
+    // insert into an empty map (built concretely empty: a symbolic emptiness flag would make CBMC
+    // explore the ring-growth path with a symbolic distance)
     {
-        let (mut map, model) = any_map();
-        kani::assume(model.empty);
+        let mut map: Map<u8> = Map::default();
         let p: u64 = kani::any();
         kani::assume(p < (1 << 62));
         let v: u8 = kani::any();
@@ -182,6 +182,7 @@ fn verif_pn_map_insert_step() {
         let q: u64 = kani::any();
         kani::assume(q < (1 << 62));
         assert!(map.get(pn(q)).copied() == if q == p { Some(v) } else { None });
+        assert!(map.get_range().start().as_u64() == p && map.get_range().end().as_u64() == p);
         kani::cover!(true, "insert into empty map");
         core::mem::forget(map);
     }
